@@ -885,6 +885,12 @@ func (a *copyAnalysis) checkElementStore(ix *ast.IndexExpr, at ast.Node, key str
 				}
 			}
 		}
+		// … or the counter of an enclosing `for i := 0; i < len(src); i++`
+		if !okIdx && idxObj != nil {
+			if b := fn.countingLoopBound(at, idxObj); b != nil && pathOf(info, b) == src && src != "" {
+				okIdx = true
+			}
+		}
 		if okIdx {
 			r.Add("E5.c2-store", fn.Name, key+" slice store", p.Pos(at), OK, "slice made with len(source) and indexed by the source's ranging index", true)
 		} else {
